@@ -10,6 +10,7 @@ import HapModel.Drv.C12
 import HapModel.Drv.C13
 import HapModel.Drv.C14
 import HapModel.Drv.C15
+import HapModel.Drv.C16
 import HapModel.Drv.C17
 import HapModel.Drv.C18
 import HapModel.Drv.C20
@@ -40,6 +41,7 @@ def dispatch1 (op : String) (j : Json) : R Json :=
   | "phenoParse" => hPhenoParse j
   | "uniqNames" => hUniqNames j
   | "noiseVar" => hNoiseVar j
+  | "ldPlan" => hLdPlan j
   | _ => throw s!"unknown op {op}"
 
 /-- {"op":"batch","reqs":[…]} → {"resps":[…]} -/
